@@ -52,6 +52,8 @@ impl<T> DualLinkedList<T> {
         let mut cur = self.head.next;
         unsafe {
             while !(*cur).next.is_null() {
+                #[cfg(petrichorit_des_verif)]
+                super::verif::list_step();
                 if (*cur).id == handle.id {
                     // remove
                     let mut cur = LocalBox::from_raw_in(cur, self.alloc);
@@ -100,6 +102,8 @@ impl<T> DualLinkedList<T> {
             //    valid prev ptrs.
             // Thus cur will be valid, non-null at the end of the loop.
             // This loop will terminated if there are no circles in the DLL
+            #[cfg(petrichorit_des_verif)]
+            super::verif::list_step();
             unsafe {
                 if (*cur).time > node.time {
                     cur = (*cur).prev;
@@ -166,7 +170,10 @@ impl<T> DualLinkedList<T> {
 
 impl<T> Drop for DualLinkedList<T> {
     fn drop(&mut self) {
-        while self.pop_min().is_some() {}
+        while self.pop_min().is_some() {
+            #[cfg(petrichorit_des_verif)]
+            super::verif::list_step();
+        }
     }
 }
 
